@@ -77,6 +77,27 @@ _Ts = TypeVarTuple("_Ts")
 log = logging.getLogger(__name__)
 
 
+class _RoomSemaphore(Semaphore):
+    """
+    Semaphore counting the free room in a task pool.
+
+    When the pool size is reduced below the room in use, that `excess` is
+    remembered; room that becomes free afterwards makes up for the excess
+    first and is not handed on to waiting spawners until the excess is gone.
+    """
+
+    def __init__(self) -> None:
+        super().__init__()
+        self.excess: int = 0
+
+    def _wake_up_next(self) -> None:
+        while self.excess and self._value > 0:
+            self._value -= 1
+            self.excess -= 1
+        if self._value > 0:
+            super()._wake_up_next()
+
+
 class BaseTaskPool:
     """The base class for task pools. Not intended to be used directly."""
 
@@ -106,7 +127,8 @@ class BaseTaskPool:
         self._tasks_cancel_at_start: Set[int] = set()
 
         # Synchronisation primitives necessary for managing the pool.
-        self._enough_room: Semaphore = Semaphore()
+        self._enough_room: _RoomSemaphore = _RoomSemaphore()
+        self._room_taken: int = 0  # room taken by tasks that have not ended
         self._task_groups: Dict[str, TaskGroupRegister] = {}
 
         # Map task group names to sets of meta tasks:
@@ -125,7 +147,18 @@ class BaseTaskPool:
     @property
     def pool_size(self) -> int:
         """Maximum number of concurrently running tasks allowed in the pool."""
-        return self._enough_room._value
+        # The semaphore only counts the room that is still free.
+        return (
+            self._enough_room._value
+            + self._room_in_use()
+            - self._enough_room.excess
+        )
+
+    def _room_in_use(self) -> int:
+        """Room taken by tasks plus room already handed to waiting spawners."""
+        waiters = getattr(self._enough_room, "_waiters", None) or ()
+        handed_over = sum(1 for w in waiters if w.done() and not w.cancelled())
+        return self._room_taken + handed_over
 
     @pool_size.setter
     def pool_size(self, value: int) -> None:
@@ -143,7 +176,18 @@ class BaseTaskPool:
         """
         if value < 0:
             raise ValueError("Pool size can not be less than 0")  # noqa: TRY003
-        self._enough_room._value = value
+        in_use = self._room_in_use()
+        if value > in_use:
+            # Set the remaining free room and wake up the first waiting
+            # spawner (which wakes up the next one, while there is room).
+            self._enough_room.excess = 0
+            self._enough_room._value = value - in_use - 1
+            self._enough_room.release()
+        else:
+            # The tasks beyond the new size are not disturbed, but the room
+            # they take is not handed on, when they end.
+            self._enough_room.excess = in_use - value
+            self._enough_room._value = 0
 
     @property
     def is_locked(self) -> bool:
@@ -325,6 +369,7 @@ class BaseTaskPool:
             self._tasks_ended[task_id] = self._tasks_running.pop(task_id)
         except KeyError:
             self._tasks_ended[task_id] = self._tasks_cancelled.pop(task_id)
+        self._room_taken -= 1
         self._enough_room.release()
         log.info("Ended %s", self._task_name(task_id))
         await execute_optional(custom_callback, args=(task_id,))
@@ -416,6 +461,7 @@ class BaseTaskPool:
         """
         self._check_start(awaitable=awaitable, ignore_lock=ignore_lock)
         await self._enough_room.acquire()
+        self._room_taken += 1
         # TODO: Make sure that cancellation (group or pool) interrupts
         #       this method after context switching!
         #       Possibly make use of the task group register for that.
